@@ -123,6 +123,14 @@ Proof.
   rewrite (app_assoc (enc_secs pre)). apply skipn_len_app.
 Qed.
 
+Lemma data_at0 pre cur post :
+  secs = pre ++ cur :: post ->
+  slice_from (br_data r) (length (enc_secs pre)) = Ok (enc_deltas 0%N cur ++ enc_secs post).
+Proof.
+  intros E. pose proof (data_at pre [] cur post E) as Hd.
+  change (enc_deltas 0 []) with (@nil N) in Hd. cbn [length last] in Hd. rewrite Nat.add_0_r in Hd. exact Hd.
+Qed.
+
 Lemma data_len pre done rest post :
   secs = pre ++ (done ++ rest) :: post ->
   length (br_data r) = (length (enc_secs pre) + length (enc_deltas 0%N done) +
@@ -210,6 +218,14 @@ Proof.
     + left. unfold bi_set. cbn [bi_ptr]. rewrite (Hr1 ltac:(discriminate)). reflexivity.
 Qed.
 
+Lemma set_after_v it pre done rest post rp v :
+  secs = pre ++ (done ++ rest) :: post -> done <> [] -> bi_err it = None ->
+  (rest <> [] -> rp = length pre) -> (rest = [] -> post <> [] -> rp = S (length pre)) ->
+  v = last done 0 ->
+  it_after (bi_set r it (length (enc_secs pre) + length (enc_deltas 0%N done)) rp v)
+           (concat pre ++ done) (rest ++ concat post).
+Proof. intros E Hd He H1 H2 ->. apply set_after; assumption. Qed.
+
 (* decoding the next id at a position *)
 Lemma decode_at pre done x rest post :
   secs = pre ++ (done ++ x :: rest) :: post ->
@@ -289,4 +305,471 @@ Proof.
     exists it''. rewrite Hd, <- app_assoc. split; [reflexivity|exact He].
 Qed.
 
+(* ---- seekGT ---- *)
+Definition seek_f (q : N) (i : nat) : res (bool * bool) :=
+  do p <- idx (br_restarts r) i;
+  do buf <- slice_from (br_data r) (N.to_nat p);
+  match uvarint buf with
+  | UvOk item _ => Ok (q <? item, false)
+  | _ => Ok (false, true)
+  end.
+
+Lemma nres_len : length (br_restarts r) = length secs.
+Proof. rewrite (rr_rs _ _ R). apply offs_length. Qed.
+
+Lemma seek_f_at q pre x rest post :
+  secs = pre ++ (x :: rest) :: post -> seek_f q (length pre) = Ok (q <? x, false).
+Proof.
+  intros E. unfold seek_f, idx. rewrite (rs_at _ _ _ E). cbn [bind]. rewrite Nat2N.id.
+  rewrite (data_at0 pre (x :: rest) post E). cbn [bind].
+  destruct (decode_at pre [] x rest post E) as (n & _ & Hu & _ & _ & Hx). cbn [last] in Hu.
+  rewrite Hu. rewrite N.sub_0_r. reflexivity.
+Qed.
+
+(* the (start, limit, restartIndex) computation of seekGT for section |pre| *)
+Lemma sec_bounds pre cur post :
+  secs = pre ++ cur :: post ->
+  (if Nat.eqb (S (length pre)) (length (br_restarts r))
+   then do s <- idx (br_restarts r) (length (br_restarts r) - 1);
+        Ok (N.to_nat s, length (br_data r), (length (br_restarts r) - 1)%nat)
+   else do s <- idx (br_restarts r) (S (length pre) - 1);
+        do l <- idx (br_restarts r) (S (length pre));
+        Ok (N.to_nat s, N.to_nat l, (S (length pre) - 1)%nat))
+  = Ok (length (enc_secs pre), (length (enc_secs pre) + length (enc_deltas 0%N cur))%nat, length pre).
+Proof.
+  intros E.
+  assert (Hlen : length secs = (length pre + S (length post))%nat) by (rewrite E, app_length; reflexivity).
+  rewrite nres_len, Hlen.
+  pose proof (rs_next _ _ _ E) as Hn. pose proof (rs_at _ _ _ E) as Ha.
+  destruct post as [|s2 post].
+  - match goal with |- context [Nat.eqb ?a ?b] => destruct (Nat.eqb_spec a b) as [_|Hx]; [|cbn [length] in Hx; lia] end.
+    cbn [length]. replace (length pre + 1 - 1)%nat with (length pre) by lia.
+    unfold idx. rewrite Ha. cbn [bind]. rewrite Nat2N.id.
+    rewrite (rr_data _ _ R), E, enc_secs_snoc, app_length. reflexivity.
+  - match goal with |- context [Nat.eqb ?a ?b] => destruct (Nat.eqb_spec a b) as [Hx|_]; [cbn [length] in Hx; lia|] end.
+    replace (S (length pre) - 1)%nat with (length pre) by lia.
+    unfold idx. rewrite Ha, Hn. cbn [bind]. rewrite !Nat2N.id. reflexivity.
+Qed.
+
+Lemma at_restart_spec it pre x rest post :
+  secs = pre ++ (x :: rest) :: post -> bi_err it = None ->
+  exists it', bi_at_restart r it (length pre) = Ok (it', true) /\ bi_id it' = x /\
+              it_after it' (concat pre ++ [x]) (rest ++ concat post).
+Proof.
+  intros E He. unfold bi_at_restart, idx. rewrite (rs_at _ _ _ E). cbn [bind]. rewrite Nat2N.id.
+  rewrite (data_at0 pre (x :: rest) post E). cbn [bind].
+  destruct (decode_at pre [] x rest post E) as (n & _ & Hu & Hl & _ & Hx). cbn [last app] in Hu, Hl.
+  change (enc_deltas 0 []) with (@nil N) in Hl. cbn [length] in Hl.
+  rewrite Hu. rewrite N.sub_0_r. eexists. split; [reflexivity|]. split; [reflexivity|].
+  replace (length (enc_secs pre) + n)%nat with (length (enc_secs pre) + length (enc_deltas 0%N [x]))%nat by lia.
+  change x with (last [x] 0) at 2.
+  apply (set_after it pre [x] rest post (length pre)); try assumption; try discriminate.
+  - reflexivity.
+  - intros -> Hp. pose proof (rr_two _ _ R pre [x] post E Hp) as H2. cbn in H2. lia.
+Qed.
+
+Lemma hd_in (s : list N) : s <> [] -> In (hd 0 s) s.
+Proof. destruct s; [contradiction|]. intros _. left. reflexivity. Qed.
+
+Lemma in_concat_sec (pre : list (list N)) s post y : In y s -> In y (concat (pre ++ s :: post)).
+Proof. intros H. rewrite concat_app. apply in_or_app. right. cbn [concat]. apply in_or_app. left. exact H. Qed.
+
+(* the binary search over restart points returns the boundary K when the
+   closure answers (K <= h) *)
+Lemma search_boundary q K :
+  (K <= length secs)%nat ->
+  (forall h, (h < length secs)%nat -> seek_f q h = Ok (negb (Nat.ltb h K), false)) ->
+  search (length (br_restarts r)) (seek_f q) = Ok (K, false).
+Proof.
+  intros HK Hf. unfold search. rewrite nres_len.
+  destruct (search_go_spec (seek_f q) (fun h => negb (Nat.ltb h K)) (S (length secs)) 0 (length secs) false)
+    as (k & Hk & Hr & H1 & H2).
+  - intros h Hh. apply Hf. lia.
+  - intros h h' Hh Hh' Hp. destruct (Nat.ltb_spec h K); [discriminate|]. destruct (Nat.ltb_spec h' K); [lia|reflexivity].
+  - lia.
+  - lia.
+  - rewrite Hk. f_equal. f_equal.
+    destruct (Nat.lt_trichotomy k K) as [Hlt|[Heq|Hgt]]; [|exact Heq|].
+    + specialize (H2 k). destruct (Nat.ltb_spec k K); [|lia]. assert (k < length secs)%nat by lia.
+      specialize (H2 ltac:(lia)). discriminate.
+    + specialize (H1 K ltac:(lia)). destruct (Nat.ltb_spec K K); [lia|discriminate].
+Qed.
+
+Lemma seek_f_lt_pre q pre cur post h :
+  secs = pre ++ cur :: post -> (h < length pre)%nat ->
+  (forall y, In y (concat pre) -> y <= q) -> seek_f q h = Ok (false, false).
+Proof.
+  intros E Hh Hle.
+  destruct (nth_error pre h) as [s|] eqn:En; [|apply nth_error_None in En; lia].
+  apply nth_error_split in En. destruct En as (p1 & p2 & Ep & Hl).
+  assert (E2 : secs = p1 ++ s :: (p2 ++ cur :: post)) by (rewrite E, Ep, <- app_assoc; reflexivity).
+  destruct (sec_asc _ _ _ E2) as [Hs _]. destruct s as [|x0 rs]; [contradiction|].
+  rewrite <- Hl. rewrite (seek_f_at q _ _ _ _ E2). f_equal. f_equal. apply N.ltb_ge. apply Hle.
+  rewrite Ep. apply in_concat_sec. left. reflexivity.
+Qed.
+
+Lemma seek_f_gt_pre q pre cur post h b :
+  secs = pre ++ cur :: post -> (length pre < h < length secs)%nat ->
+  (forall y, In y (concat post) -> q < y) -> b = true -> seek_f q h = Ok (b, false).
+Proof.
+  intros E Hh Hgt ->.
+  assert (Hlen : length secs = (length pre + S (length post))%nat) by (rewrite E, app_length; reflexivity).
+  destruct (nth_error post (h - S (length pre))) as [s|] eqn:En; [|apply nth_error_None in En; lia].
+  apply nth_error_split in En. destruct En as (p1 & p2 & Ep & Hl).
+  assert (E2 : secs = (pre ++ cur :: p1) ++ s :: p2) by (rewrite E, Ep, <- app_assoc; reflexivity).
+  destruct (sec_asc _ _ _ E2) as [Hs _]. destruct s as [|x0 rs]; [contradiction|].
+  replace h with (length (pre ++ cur :: p1)) by (rewrite app_length; cbn [length]; lia).
+  rewrite (seek_f_at q _ _ _ _ E2). f_equal. f_equal. apply N.ltb_lt. apply Hgt.
+  rewrite Ep. apply in_concat_sec. left. reflexivity.
+Qed.
+
+Lemma bi_seek_gt_unfold it q :
+  bi_err it = None ->
+  bi_seek_gt r it q =
+  (do sr <- search (length (br_restarts r)) (seek_f q);
+   let '(index, eflag) := sr in
+   if eflag then Ok (bi_set_err it EDecodeItem, false) else
+   if Nat.eqb index 0 then bi_at_restart r it 0 else
+   do sl <- (if Nat.eqb index (length (br_restarts r))
+             then do s <- idx (br_restarts r) (length (br_restarts r) - 1);
+                  Ok (N.to_nat s, length (br_data r), (length (br_restarts r) - 1)%nat)
+             else do s <- idx (br_restarts r) (index - 1); do l <- idx (br_restarts r) index;
+                  Ok (N.to_nat s, N.to_nat l, (index - 1)%nat));
+   let '(start, limit, restartIndex) := sl in
+   do found <- (if Nat.ltb start limit
+                then do buf <- slice_from (br_data r) start;
+                     seek_loop (S (length (br_data r))) start limit q start buf 0
+                else Ok SNotFound);
+   match found with
+   | SDecodeErr => Ok (bi_set_err it EDecodeItem, false)
+   | SFound pos v =>
+       if Nat.eqb pos limit then Ok (bi_set r it pos (S restartIndex) v, true)
+       else Ok (bi_set r it pos restartIndex v, true)
+   | SNotFound =>
+       if Nat.eqb index (length (br_restarts r)) then Ok (bi_reset r, false)
+       else bi_at_restart r it index
+   end).
+Proof. intros He. unfold bi_seek_gt. rewrite He. reflexivity. Qed.
+
+(* scanning section |pre| from its start *)
+Lemma seek_section q pre cur post :
+  secs = pre ++ cur :: post ->
+  (if Nat.ltb (length (enc_secs pre)) (length (enc_secs pre) + length (enc_deltas 0%N cur))
+   then do buf <- slice_from (br_data r) (length (enc_secs pre));
+        seek_loop (S (length (br_data r))) (length (enc_secs pre))
+                  (length (enc_secs pre) + length (enc_deltas 0%N cur)) q (length (enc_secs pre)) buf 0
+   else Ok SNotFound)
+  = Ok (match split_gt q cur with
+        | None => SNotFound
+        | Some (l1, x) => SFound (length (enc_secs pre) + length (enc_deltas 0%N (l1 ++ [x])))%nat x
+        end).
+Proof.
+  intros E. destruct (sec_asc _ _ _ E) as [Hne Ha].
+  pose proof (enc_len_pos 0 cur Hne) as Hp.
+  match goal with |- context [Nat.ltb ?a ?b] => destruct (Nat.ltb_spec a b) as [_|Hx]; [|lia] end.
+  rewrite (data_at0 pre cur post E). cbn [bind].
+  apply seek_loop_spec; try assumption; try reflexivity; try lia.
+  pose proof (data_len pre [] cur post E) as Hl. change (enc_deltas 0 []) with (@nil N) in Hl. cbn [length last] in Hl.
+  pose proof (enc_deltas_len_ge 0 cur). lia.
+Qed.
+
+Theorem seek_found it q pre done x rest post :
+  secs = pre ++ (done ++ x :: rest) :: post -> bi_err it = None ->
+  (forall y, In y (concat pre ++ done) -> y <= q) -> q < x ->
+  exists it', bi_seek_gt r it q = Ok (it', true) /\ bi_id it' = x /\
+              it_after it' ((concat pre ++ done) ++ [x]) (rest ++ concat post).
+Proof.
+  intros E He Hle Hx.
+  assert (Hlen : length secs = (length pre + S (length post))%nat) by (rewrite E, app_length; reflexivity).
+  assert (Hasc : asc 0 (concat secs)) by exact (rr_asc _ _ R).
+  assert (Hgt : forall y, In y (rest ++ concat post) -> q < y).
+  { intros y Hy. rewrite E, concat_app in Hasc. cbn [concat] in Hasc.
+    rewrite <- !app_assoc in Hasc. apply asc_app in Hasc. destruct Hasc as [_ Hasc].
+    apply asc_app in Hasc. destruct Hasc as [_ Hasc]. cbn [app asc] in Hasc. destruct Hasc as (_ & _ & Hasc).
+    pose proof (asc_all_gt _ _ Hasc y Hy). lia. }
+  assert (Hpre : forall y, In y (concat pre) -> y <= q) by (intros y Hy; apply Hle; apply in_or_app; left; exact Hy).
+  assert (Hpost : forall y, In y (concat post) -> q < y) by (intros y Hy; apply Hgt; apply in_or_app; right; exact Hy).
+  rewrite bi_seek_gt_unfold by exact He.
+  destruct done as [|d0 done'].
+  - (* x opens its section: the boundary is |pre| *)
+    cbn [app] in E. rewrite app_nil_r in *.
+    rewrite (search_boundary q (length pre)); [|lia|].
+    2:{ intros h Hh. destruct (Nat.ltb_spec h (length pre)) as [Hl|Hg]; cbn [negb].
+        - eapply seek_f_lt_pre; eauto.
+        - destruct (Nat.eq_dec h (length pre)) as [->|Hn].
+          + rewrite (seek_f_at q _ _ _ _ E). f_equal. f_equal. apply N.ltb_lt. exact Hx.
+          + eapply seek_f_gt_pre; eauto. lia. }
+    cbn [bind]. destruct (at_restart_spec it pre x rest post E He) as (it' & Hr & Hid & Haft).
+    destruct (snoc_cases pre) as [->|(pre' & sp & ->)].
+    + cbn [length Nat.eqb]. exists it'. cbn [length] in Hr. rewrite Hr. auto.
+    + rewrite app_length. cbn [length]. replace (length pre' + 1)%nat with (S (length pre')) by lia.
+      destruct (Nat.eqb_spec (S (length pre')) 0) as [Hz|_]; [lia|].
+      assert (E2 : secs = pre' ++ sp :: (x :: rest) :: post) by (rewrite E, <- app_assoc; reflexivity).
+      rewrite (sec_bounds pre' sp _ E2). cbn [bind]. rewrite (seek_section q pre' sp _ E2). cbn [bind].
+      rewrite split_gt_none.
+      2:{ intros y Hy. apply Hpre. rewrite concat_app. apply in_or_app. right. cbn [concat]. rewrite app_nil_r. exact Hy. }
+      match goal with |- context [Nat.eqb ?a ?b] => destruct (Nat.eqb_spec a b) as [Hq|_] end.
+      { rewrite nres_len, E2, app_length in Hq. cbn [length] in Hq. lia. }
+      rewrite app_length in Hr. cbn [length] in Hr. replace (length pre' + 1)%nat with (S (length pre')) in Hr by lia.
+      exists it'. rewrite Hr. auto.
+  - (* x is inside its section: the boundary is |pre| + 1 *)
+    set (done := d0 :: done') in *.
+    assert (Hd0 : d0 <= q) by (apply Hle; apply in_or_app; right; left; reflexivity).
+    rewrite (search_boundary q (S (length pre))); [|lia|].
+    2:{ intros h Hh. destruct (Nat.ltb_spec h (S (length pre))) as [Hl|Hg]; cbn [negb].
+        - destruct (Nat.eq_dec h (length pre)) as [->|Hn].
+          + unfold done in E. cbn [app] in E. rewrite (seek_f_at q _ _ _ _ E). f_equal. f_equal. apply N.ltb_ge. exact Hd0.
+          + eapply seek_f_lt_pre; eauto. lia.
+        - eapply seek_f_gt_pre; eauto; lia. }
+    cbn [bind]. destruct (Nat.eqb_spec (S (length pre)) 0) as [Hz|_]; [lia|].
+    rewrite (sec_bounds pre _ post E). cbn [bind].
+    rewrite (seek_section q pre _ post E). cbn [bind].
+    rewrite (split_gt_found q done x rest); [|intros y Hy; apply Hle; apply in_or_app; right; exact Hy|exact Hx].
+    assert (E' : secs = pre ++ ((done ++ [x]) ++ rest) :: post) by (rewrite <- app_assoc; exact E).
+    match goal with |- context [Nat.eqb ?a ?b] => destruct (Nat.eqb_spec a b) as [Hq|Hq] end.
+    + eexists. split; [reflexivity|]. split; [reflexivity|]. rewrite <- app_assoc.
+      apply (set_after_v it pre (done ++ [x]) rest post); try assumption; try apply snoc_ne.
+      * intros Hr. exfalso. rewrite (enc_len_split 0 done x rest) in Hq. pose proof (enc_len_pos x rest Hr). lia.
+      * reflexivity.
+      * symmetry. apply last_snoc.
+    + eexists. split; [reflexivity|]. split; [reflexivity|]. rewrite <- app_assoc.
+      apply (set_after_v it pre (done ++ [x]) rest post); try assumption; try apply snoc_ne.
+      * reflexivity.
+      * intros -> _. exfalso. apply Hq. rewrite (enc_len_split 0 done x []). cbn [enc_deltas length]. lia.
+      * symmetry. apply last_snoc.
+Qed.
+
+Theorem seek_none it q :
+  bi_err it = None -> secs <> [] -> (forall y, In y (concat secs) -> y <= q) ->
+  exists it', bi_seek_gt r it q = Ok (it', false) /\ bi_err it' = None.
+Proof.
+  intros He Hne Hle. rewrite bi_seek_gt_unfold by exact He.
+  assert (Hex : exists pre sl, secs = pre ++ [sl]).
+  { clear R. destruct (snoc_cases secs) as [->|(pre & sl & ->)]; [contradiction|eauto]. }
+  destruct Hex as (pre & sl & E).
+  assert (Hlen : length secs = S (length pre)) by (rewrite E, app_length; cbn; lia).
+  rewrite (search_boundary q (length secs)); [|lia|].
+  2:{ intros h Hh. destruct (Nat.ltb_spec h (length secs)) as [_|Hg]; [|lia]. cbn [negb].
+      destruct (Nat.eq_dec h (length pre)) as [->|Hn].
+      - destruct (sec_asc _ _ _ E) as [Hs _]. destruct sl as [|x0 rs]; [contradiction|].
+        rewrite (seek_f_at q _ _ _ _ E). f_equal. f_equal. apply N.ltb_ge. apply Hle. rewrite E. apply in_concat_sec. left. reflexivity.
+      - eapply seek_f_lt_pre; eauto; [lia|]. intros y Hy. apply Hle. rewrite E, concat_app. apply in_or_app. left. exact Hy. }
+  cbn [bind]. rewrite Hlen. cbn [Nat.eqb]. rewrite <- Hlen, <- nres_len.
+  pose proof (sec_bounds pre sl [] E) as Hb. rewrite nres_len, Hlen in Hb. rewrite nres_len, Hlen.
+  rewrite Nat.eqb_refl in *. rewrite Hb. cbn [bind].
+  rewrite (seek_section q pre sl [] E). cbn [bind].
+  rewrite split_gt_none by (intros y Hy; apply Hle; rewrite E; apply in_concat_sec; exact Hy).
+  eexists. split; reflexivity.
+Qed.
+
 End Reader.
+
+(* ------------------------------------------------------------------ *)
+(* from sections to the flat list of ids                                *)
+
+Lemma concat_split (secs : list (list N)) : forall bef x aft,
+  concat secs = bef ++ x :: aft ->
+  exists pre done rest post,
+    secs = pre ++ (done ++ x :: rest) :: post /\ bef = concat pre ++ done /\ aft = rest ++ concat post.
+Proof.
+  induction secs as [|s secs IH]; intros bef x aft H; [destruct bef; discriminate|].
+  cbn [concat] in H. apply app_eq_app in H. destruct H as [l [[Hs Hl]|[Hb Hc]]].
+  - destruct l as [|y l'].
+    + cbn [app] in Hl. rewrite app_nil_r in Hs. subst s.
+      destruct (IH [] x aft (eq_sym Hl)) as (pre & done & rest & post & E & Hb & Ha).
+      exists (bef :: pre), done, rest, post. subst secs. split; [reflexivity|]. split; [|exact Ha].
+      cbn [concat]. rewrite <- app_assoc, <- Hb, app_nil_r. reflexivity.
+    + cbn [app] in Hl. inversion Hl; subst y aft. exists [], bef, l', secs. subst s. split; [reflexivity|]. split; reflexivity.
+  - destruct (IH l x aft Hc) as (pre & done & rest & post & E & Hb' & Ha).
+    exists (s :: pre), done, rest, post. subst secs. split; [reflexivity|]. split; [|exact Ha].
+    cbn [concat]. rewrite <- app_assoc, <- Hb'. exact Hb.
+Qed.
+
+Lemma split_gt_some q : forall l l1 x,
+  split_gt q l = Some (l1, x) ->
+  exists l2, l = l1 ++ x :: l2 /\ (forall y, In y l1 -> y <= q) /\ q < x.
+Proof.
+  induction l as [|a l IH]; intros l1 x H; cbn [split_gt] in H; [discriminate|].
+  destruct (q <? a) eqn:E.
+  - inversion H; subst. exists l. split; [reflexivity|]. split; [intros y []|apply N.ltb_lt; exact E].
+  - destruct (split_gt q l) as [[l1' y]|] eqn:Es; [|discriminate]. inversion H; subst.
+    destruct (IH l1' x eq_refl) as (l2 & El & Hle & Hx). exists l2. subst l. split; [reflexivity|]. split; [|exact Hx].
+    intros z [<-|Hz]; [apply N.ltb_ge; exact E|apply Hle; exact Hz].
+Qed.
+
+Lemma split_gt_none_inv q : forall l, split_gt q l = None -> forall y, In y l -> y <= q.
+Proof.
+  induction l as [|a l IH]; intros H y Hy; [destruct Hy|]. cbn [split_gt] in H.
+  destruct (q <? a) eqn:E; [discriminate|]. destruct (split_gt q l) as [[? ?]|] eqn:Es; [discriminate|].
+  destruct Hy as [<-|Hy]; [apply N.ltb_ge; exact E|apply IH; [reflexivity|exact Hy]].
+Qed.
+
+(* ids above q, in stored order *)
+Definition above (q : N) (l : list N) : list N := filter (fun x => q <? x) l.
+
+Lemma above_split q p bef x aft :
+  asc p (bef ++ x :: aft) -> (forall y, In y bef -> y <= q) -> q < x -> above q (bef ++ x :: aft) = x :: aft.
+Proof.
+  intros Ha Hle Hx. unfold above. rewrite filter_app.
+  replace (filter (fun x0 => q <? x0) bef) with (@nil N).
+  2:{ symmetry. clear Ha. induction bef as [|b bef IH]; [reflexivity|]. cbn [filter].
+      replace (q <? b) with false by (symmetry; apply N.ltb_ge; apply Hle; left; reflexivity).
+      apply IH. intros y Hy. apply Hle. right. exact Hy. }
+  cbn [app filter]. replace (q <? x) with true by (symmetry; apply N.ltb_lt; exact Hx). f_equal.
+  apply asc_app in Ha. destruct Ha as [_ Ha]. destruct Ha as (_ & _ & Ha).
+  pose proof (asc_all_gt _ _ Ha) as Hg. clear Ha.
+  induction aft as [|a aft IH]; [reflexivity|]. cbn [filter].
+  replace (q <? a) with true by (symmetry; apply N.ltb_lt; specialize (Hg a (or_introl eq_refl)); lia).
+  f_equal. apply IH. intros y Hy. apply Hg. right. exact Hy.
+Qed.
+
+Lemma above_none q l : (forall y, In y l -> y <= q) -> above q l = [].
+Proof.
+  intros Hle. unfold above. induction l as [|a l IH]; [reflexivity|]. cbn [filter].
+  replace (q <? a) with false by (symmetry; apply N.ltb_ge; apply Hle; left; reflexivity).
+  apply IH. intros y Hy. apply Hle. right. exact Hy.
+Qed.
+
+(* ---- the reader over the bytes written by a reachable writer ---- *)
+Lemma reader_of_writer b full cur :
+  wrepr b full cur -> elems_of full cur <> [] ->
+  new_block_reader (bw_finish b) = Ok (mkBR (bw_restarts b) (bw_data b)) /\
+  rrepr (mkBR (bw_restarts b) (bw_data b)) (wsecs full cur) /\ wsecs full cur <> [].
+Proof.
+  intros W Hne. split; [|split].
+  - unfold new_block_reader. rewrite (finish_parse_block _ _ _ W Hne). reflexivity.
+  - constructor; cbn [br_restarts br_data].
+    + exact (wr_rs _ _ _ W).
+    + rewrite (wr_data _ _ _ W). symmetry. apply wsecs_enc.
+    + eapply wrepr_secs_ok. exact W.
+    + rewrite wsecs_concat. exact (wr_asc _ _ _ W).
+    + intros pre s post E Hp. unfold wsecs in E.
+      assert (Hin : In s full).
+      { destruct cur as [|c cur'].
+        - rewrite app_nil_r in E. rewrite E. apply in_or_app. right. left. reflexivity.
+        - destruct (snoc_cases post) as [->|(post' & sl & ->)]; [contradiction|].
+          replace (pre ++ s :: post' ++ [sl]) with ((pre ++ s :: post') ++ [sl]) in E by (rewrite <- app_assoc; reflexivity).
+          apply app_inj_tail in E. destruct E as [E _]. rewrite E. apply in_or_app. right. left. reflexivity. }
+      pose proof (wr_full _ _ _ W) as Hf. rewrite Forall_forall in Hf. rewrite (Hf s Hin). lia.
+  - unfold wsecs. destruct cur as [|c cur'].
+    + exfalso. apply Hne. rewrite (wr_curnil _ _ _ W eq_refl). reflexivity.
+    + apply snoc_ne.
+Qed.
+
+Section ReaderTop.
+Variables (r : breader) (secs : list (list N)).
+Hypothesis R : rrepr r secs.
+Hypothesis Hne : secs <> [].
+
+(* SeekGT q then Next* yields exactly the ids above q, in order *)
+Theorem seek_drain_spec q fuel :
+  (length (concat secs) < fuel)%nat ->
+  match above q (concat secs) with
+  | [] => exists it', bi_seek_gt r (bi_reset r) q = Ok (it', false) /\ bi_err it' = None
+  | x :: aft =>
+      exists it' it'', bi_seek_gt r (bi_reset r) q = Ok (it', true) /\ bi_id it' = x /\
+                       bi_drain fuel r it' [x] = Ok (it'', x :: aft) /\ bi_err it'' = None
+  end.
+Proof.
+  intros Hf. destruct (split_gt q (concat secs)) as [[bef x]|] eqn:Es.
+  - destruct (split_gt_some q _ _ _ Es) as (aft & El & Hle & Hx).
+    rewrite El. rewrite (above_split q 0 bef x aft); [|rewrite <- El; exact (rr_asc _ _ R)|exact Hle|exact Hx].
+    destruct (concat_split secs bef x aft El) as (pre & done & rest & post & E & Hb & Ha).
+    destruct (seek_found r secs R (bi_reset r) q pre done x rest post E eq_refl) as (it' & Hs & Hid & Haft).
+    { rewrite <- Hb. exact Hle. } { exact Hx. }
+    destruct (drain_spec r secs R (rest ++ concat post) it' ((concat pre ++ done) ++ [x]) [x] fuel Haft) as (it'' & Hd & He).
+    { rewrite <- Ha. rewrite El, app_length in Hf. cbn [length] in Hf. lia. }
+    exists it', it''. rewrite <- Ha in Hd. auto.
+  - pose proof (split_gt_none_inv q _ Es) as Hle. rewrite (above_none q _ Hle).
+    apply (seek_none r secs R); [reflexivity|exact Hne|exact Hle].
+Qed.
+
+(* Next* from a fresh iterator yields every id, in order *)
+Theorem drain_all_spec fuel :
+  (length (concat secs) < fuel)%nat ->
+  exists it', bi_drain fuel r (bi_reset r) [] = Ok (it', concat secs) /\ bi_err it' = None.
+Proof.
+  intros Hf. destruct (drain_spec r secs R (concat secs) (bi_reset r) [] [] fuel) as (it' & Hd & He).
+  - apply it_after_reset; assumption.
+  - exact Hf.
+  - exists it'. auto.
+Qed.
+
+(* readGreaterThan *)
+Theorem read_gt_spec q :
+  br_read_gt r q = Ok (Ok (match above q (concat secs) with x :: _ => x | [] => maxU64 end)).
+Proof.
+  pose proof (seek_drain_spec q (S (length (concat secs))) ltac:(lia)) as H.
+  unfold br_read_gt. destruct (above q (concat secs)) as [|x aft].
+  - destruct H as (it' & Hs & He). rewrite Hs. cbn [bind]. rewrite He. reflexivity.
+  - destruct H as (it' & it'' & Hs & Hid & Hd & He). rewrite Hs. cbn [bind].
+    assert (He' : bi_err it' = None).
+    { destruct (split_gt q (concat secs)) as [[bef y]|] eqn:Es.
+      - destruct (split_gt_some q _ _ _ Es) as (aft' & El & Hle & Hx).
+        destruct (concat_split secs bef y aft' El) as (pre & done & rest & post & E & Hb & Ha).
+        destruct (seek_found r secs R (bi_reset r) q pre done y rest post E eq_refl) as (it2 & Hs2 & _ & Haft).
+        { rewrite <- Hb. exact Hle. } { exact Hx. }
+        rewrite Hs in Hs2. inversion Hs2; subst it2. exact (proj1 Haft).
+      - pose proof (split_gt_none_inv q _ Es) as Hle.
+        destruct (seek_none r secs R (bi_reset r) q eq_refl Hne Hle) as (it2 & Hs2 & _). rewrite Hs in Hs2. discriminate. }
+    rewrite He'. rewrite Hid. reflexivity.
+Qed.
+End ReaderTop.
+
+(* the first id above q of an ascending list is the least one *)
+Lemma above_least q p l :
+  asc p l ->
+  match above q l with
+  | x :: _ => In x l /\ q < x /\ forall y, In y l -> q < y -> x <= y
+  | [] => forall y, In y l -> y <= q
+  end.
+Proof.
+  intros Ha. destruct (split_gt q l) as [[bef x]|] eqn:Es.
+  - destruct (split_gt_some q _ _ _ Es) as (aft & El & Hle & Hx). subst l.
+    rewrite (above_split q p bef x aft Ha Hle Hx). split; [apply in_or_app; right; left; reflexivity|].
+    split; [exact Hx|]. intros y Hy Hq. apply in_app_or in Hy. destruct Hy as [Hy|[<-|Hy]].
+    + specialize (Hle y Hy). lia.
+    + lia.
+    + apply asc_app in Ha. destruct Ha as [_ (_ & _ & Ha)]. pose proof (asc_all_gt _ _ Ha y Hy). lia.
+  - pose proof (split_gt_none_inv q _ Es) as Hle. rewrite (above_none q _ Hle). exact Hle.
+Qed.
+
+(* ---- property-level statements over reachable writers ---- *)
+Theorem read_gt_least b q :
+  bw_reach b -> bw_abs b <> [] ->
+  exists r v, new_block_reader (bw_finish b) = Ok r /\ br_read_gt r q = Ok (Ok v) /\
+    ((In v (bw_abs b) /\ q < v /\ forall y, In y (bw_abs b) -> q < y -> v <= y) \/
+     (v = maxU64 /\ forall y, In y (bw_abs b) -> y <= q)).
+Proof.
+  intros Rb. destruct (reach_repr _ Rb) as (full & cur & W). rewrite (bw_abs_spec _ _ _ W). intros Hne.
+  destruct (reader_of_writer _ _ _ W Hne) as (Hr & RR & Hs).
+  eexists _, _. split; [exact Hr|]. split; [apply (read_gt_spec _ _ RR Hs)|].
+  rewrite wsecs_concat. pose proof (above_least q 0 _ (wr_asc _ _ _ W)) as Hl.
+  destruct (above q (elems_of full cur)) as [|x aft]; [right; split; [reflexivity|exact Hl]|left; exact Hl].
+Qed.
+
+Theorem iter_yields_abs b fuel :
+  bw_reach b -> bw_abs b <> [] -> (length (bw_abs b) < fuel)%nat ->
+  exists r it', new_block_reader (bw_finish b) = Ok r /\
+    bi_drain fuel r (bi_reset r) [] = Ok (it', bw_abs b) /\ bi_err it' = None.
+Proof.
+  intros Rb. destruct (reach_repr _ Rb) as (full & cur & W). rewrite (bw_abs_spec _ _ _ W). intros Hne Hf.
+  destruct (reader_of_writer _ _ _ W Hne) as (Hr & RR & Hs).
+  destruct (drain_all_spec _ _ RR Hs fuel) as (it' & Hd & He); [rewrite wsecs_concat; exact Hf|].
+  eexists _, it'. split; [exact Hr|]. rewrite wsecs_concat in Hd. auto.
+Qed.
+
+Theorem seek_iter_yields_above b q fuel :
+  bw_reach b -> bw_abs b <> [] -> (length (bw_abs b) < fuel)%nat ->
+  exists r, new_block_reader (bw_finish b) = Ok r /\
+    match above q (bw_abs b) with
+    | [] => exists it', bi_seek_gt r (bi_reset r) q = Ok (it', false) /\ bi_err it' = None
+    | x :: aft =>
+        exists it' it'', bi_seek_gt r (bi_reset r) q = Ok (it', true) /\ bi_id it' = x /\
+                         bi_drain fuel r it' [x] = Ok (it'', x :: aft) /\ bi_err it'' = None
+    end.
+Proof.
+  intros Rb. destruct (reach_repr _ Rb) as (full & cur & W). rewrite (bw_abs_spec _ _ _ W). intros Hne Hf.
+  destruct (reader_of_writer _ _ _ W Hne) as (Hr & RR & Hs).
+  eexists. split; [exact Hr|]. rewrite <- wsecs_concat. apply (seek_drain_spec _ _ RR Hs). rewrite wsecs_concat. exact Hf.
+Qed.
